@@ -6,10 +6,15 @@ use crate::core::{Failure, Report};
 pub mod c01;
 pub mod c02;
 pub mod c05;
+pub mod c08;
 pub mod c12;
 pub mod c12b;
 pub mod c13;
+pub mod c14;
+pub mod c14a;
+pub mod c14c;
 pub mod c16;
+pub mod c20;
 pub mod xfer;
 
 pub fn run(prop: &str, report: &Report) -> i32 {
@@ -17,9 +22,12 @@ pub fn run(prop: &str, report: &Report) -> i32 {
         "C01" => c01::run(report),
         "C02" => c02::run(report),
         "C05" => c05::run(report),
+        "C08" => c08::run(report),
         "C12" => c12::run(report),
         "C13" => c13::run(report),
+        "C14" => c14::run(report),
         "C16" => c16::run(report),
+        "C20" => c20::run(report),
         _ => {
             eprintln!("unknown property {prop}");
             2
@@ -32,9 +40,15 @@ pub fn replay(f: &Failure) -> i32 {
         "c01a" => crate::core::replay_case(f, c01::case_a),
         "c02" => crate::core::replay_case(f, c02::case),
         "c05" => crate::core::replay_case(f, c05::case),
+        "c08" => crate::core::replay_case(f, c08::case),
         "c12a" => crate::core::replay_case(f, c12::case),
+        "c12b" => crate::core::replay_case(f, c12b::case_hist),
+        "c12b-init" => crate::core::replay_case(f, c12b::case_init),
+        "c14c-log-long" | "c14c-log-short" => crate::core::replay_case(f, c14c::case_log),
+        "c14c-cache-long" | "c14c-cache-short" => crate::core::replay_case(f, c14c::case_cache),
         "c13" => crate::core::replay_case(f, c13::case),
         "c16" => crate::core::replay_case(f, c16::case),
+        "c20" => crate::core::replay_case(f, c20::case),
         other => {
             eprintln!("no replay handler for check {other}");
             2
